@@ -29,8 +29,9 @@ MAXOPS = 36            # the content version (a clock value) is encoded in the b
 class LifeApp(object):
     """a LatticeApp whose upstream paints the virtual time into the content, rebuilt on restart, with seed / cleanup"""
 
-    def __init__(self, g, ms, buf):
+    def __init__(self, g, ms, buf, backend='file'):
         import mapproxy.client.http as http
+        self.backend = backend
         assert len(g['res']) <= 4
         c13.install()
         self.g = g
@@ -41,6 +42,8 @@ class LifeApp(object):
         self.dir = self.la.dir
         self.conf = self.la.conf
         self.conf['caches']['c']['concurrent_tile_creators'] = 1      # one upstream request after the other
+        if backend == 'sqlite':
+            self.conf['caches']['c']['cache'] = {'type': 'sqlite', 'directory': os.path.join(self.dir, 'cache')}
         self.logf = os.path.join(self.dir, 'upstream.log')
         open(self.logf, 'w').close()
         self.pos = 0
@@ -132,6 +135,8 @@ class LifeApp(object):
 
     def store_listing(self):
         from PIL import Image
+        if self.backend == 'sqlite':
+            return self._sqlite_listing()
         base = os.path.join(self.dir, 'cache')
         out = []
         for root, ds, fs in os.walk(base):
@@ -148,6 +153,34 @@ class LifeApp(object):
                 ver = d[1] if d and d[0] == z else -2
                 stamp = int(round(mt)) if abs(mt - round(mt)) < 1e-3 else -2
                 out.append([x, y, z, stamp, ver])
+        return sorted(out)
+
+    def _sqlite_listing(self):
+        """every tile of the grid asked from a fresh cache object on the directory of level databases"""
+        from mapproxy.cache.mbtiles import MBTilesLevelCache
+        from mapproxy.cache.tile import Tile
+        from harness.c02 import grid_size
+        out = []
+        base = os.path.join(self.dir, 'cache', 'g')          # (the loader appends the grid name)
+        if not os.path.isdir(base):
+            return out
+        cache = MBTilesLevelCache(base)
+        try:
+            for z in range(len(self.g['res'])):
+                if not os.path.exists(os.path.join(base, '%s.mbtile' % z)):
+                    continue
+                gx, gy = grid_size(self.g, z)
+                for y in range(gy):
+                    for x in range(gx):
+                        t = Tile((x, y, z))
+                        if not cache.load_tile(t, with_metadata=True) or t.source is None:
+                            continue
+                        mt = t.timestamp - c13.BASE
+                        d = self.decode_version(t.source.as_image())
+                        out.append([x, y, z, int(round(mt)) if abs(mt - round(mt)) < 1e-3 else -2,
+                                    d[1] if d and d[0] == z else -2])
+        finally:
+            cache.cleanup()
         return sorted(out)
 
     def internal_of(self, lvl, cells):
@@ -215,9 +248,9 @@ class LifeApp(object):
             t.tile_manager.cleanup()
 
 
-def history(ctx, g, ms, buf, n):
+def history(ctx, g, ms, buf, n, backend='file'):
     from harness.c02 import grid_size
-    app = LifeApp(g, ms, buf)
+    app = LifeApp(g, ms, buf, backend)
     rng = ctx.rng
     ev = []
     known = {}            # (f, a) -> internal tile, learned from 200 responses
@@ -362,23 +395,24 @@ def run(ctx):
     tlc.sany(SPEC)
     model_check(ctx, thorough)
     ops = {}
-    for gname, ms, buf in (('G2', (2, 2), 0), ('G2ul', (2, 1), 1), ('Gneg', (3, 2), 2)) + (
-            (('Grect', (2, 3), 1), ('G15', (2, 2), 0), ('Gpartul', (2, 2), 0)) if thorough else ()):
+    for gname, ms, buf, backend in (('G2', (2, 2), 0, 'file'), ('G2ul', (2, 1), 1, 'sqlite'), ('Gneg', (3, 2), 2, 'file')) + (
+            (('Grect', (2, 3), 1, 'sqlite'), ('G15', (2, 2), 0, 'file'), ('Gpartul', (2, 2), 0, 'file'), ('G2', (2, 2), 1, 'sqlite'))
+            if thorough else ()):
         g = L.spec_grid(gname)
-        traces = [history(ctx, g, ms, buf, MAXOPS) for _ in range(8 if thorough else 3)]
+        traces = [history(ctx, g, ms, buf, MAXOPS, backend) for _ in range(8 if thorough else 3)]
         for t in traces:
             ctx.count((gname, json.dumps([[e['op'], e.get('a') or e.get('q') or e.get('level'), e.get('th')] for e in t])))
             for e in t:
                 key = e['op'] + (':%s' % e['status'] if e['op'] == 'tile' else '')
                 ops[key] = ops.get(key, 0) + 1
-        nrej = validate(ctx, gname, g, ms, buf, traces)
+        nrej = validate(ctx, gname + '-' + backend, g, ms, buf, traces)
         if gname == 'G2':
             ctx.sample({'grid': gname, 'events': [{k: e[k] for k in e if k != 'store'} for e in traces[0][:8]]})
         ctx.log('%s: %d histories validated (%d rejected)' % (gname, len(traces), nrej))
     for need in ('tile:200', 'tile:304', 'tile:404', 'map', 'seed', 'cleanup', 'restart'):
         if not ops.get(need):
             raise tlc.MachineryError('vacuity: no %s operation in the recorded histories (%r)' % (need, ops))
-    ctx.assumptions += ['sequential operations; file cache (tc layout); WMS requests contained in the grid bbox; thresholds in '
+    ctx.assumptions += ['sequential operations; file cache (tc layout) and sqlite cache (one database per level); WMS requests contained in the grid bbox; thresholds in '
                         'the past and never equal to a time stamp (even / odd seconds); one operation per two seconds']
     return ctx.finish('model_checking', 'composition over time MapProxyLife.tla: exhaustive for a small instance; recorded '
                       'histories (%s) validated by TLC' % ', '.join('%s x%d' % kv for kv in sorted(ops.items())))
